@@ -98,3 +98,97 @@ Theorem gen_eh_formats :
   /\ DW_EH_PE_absptr = 0 /\ DW_EH_PE_pcrel = DW_EH_PE_pcrel_code
   /\ DW_EH_PE_omit = DW_EH_PE_omit_code.
 Proof. repeat split; reflexivity. Qed.
+
+(* ---------------------------------------------------------------- header structs *)
+(* The construct trees of Dwarf_CIE_header / EH_CIE_header / Dwarf_FDE_header, walked on the live
+   DWARFStructs objects, are the field lists of DWARF 5 section 7.24 / 6.4.1:
+   CIE: length, CIE_id, version (ubyte), augmentation (string), address_size and
+   segment_selector_size (ubyte, version 4 on), code_alignment_factor (ULEB128),
+   data_alignment_factor (SLEB128), return_address_register (ubyte in version 1, ULEB128 after);
+   FDE: length, CIE_pointer, initial_location and address_range (target addresses). *)
+Open Scope string_scope.
+Theorem gen_headers_are_spec :
+  gen_Dwarf_CIE_header =
+    [("length", HInitLen); ("CIE_id", HOffset); ("version", HU 1); ("augmentation", HCStr);
+     ("address_size", HIfVer 4 (HU 1) HNone); ("segment_size", HIfVer 4 (HU 1) HNone);
+     ("code_alignment_factor", HUleb); ("data_alignment_factor", HSleb);
+     ("return_address_register", HIfVer 2 HUleb (HU 1))]
+  /\ gen_EH_CIE_header = gen_Dwarf_CIE_header
+  /\ gen_Dwarf_FDE_header =
+    [("length", HInitLen); ("CIE_pointer", HOffset); ("initial_location", HAddr);
+     ("address_range", HAddr)].
+Proof. repeat split; reflexivity. Qed.
+Close Scope string_scope.
+
+(* what a generated layout means: parse the fields in order into a context (name -> value),
+   If/IfThenElse deciding on the version already in the context *)
+Inductive hval : Type := HVint (z : Z) | HVbytes (b : list Z) | HVnone.
+Fixpoint ctx_get (n : string) (ctx : list (string * hval)) : hval :=
+  match ctx with
+  | [] => HVnone
+  | (k, v) :: r => if String.eqb n k then v else ctx_get n r
+  end.
+Definition ctx_int (n : string) (ctx : list (string * hval)) : Z :=
+  match ctx_get n ctx with HVint z => z | _ => 0 end.
+Definition ctx_opt (n : string) (ctx : list (string * hval)) : option Z :=
+  match ctx_get n ctx with HVint z => Some z | _ => None end.
+Definition ctx_bytes (n : string) (ctx : list (string * hval)) : list Z :=
+  match ctx_get n ctx with HVbytes b => b | _ => [] end.
+
+Fixpoint parse_hkind (St : structs) (ctx : list (string * hval)) (k : hkind) : parser hval :=
+  match k with
+  | HInitLen => let* v := Dwarf_initial_length St in pret (HVint v)
+  | HOffset => let* v := Dwarf_offset St in pret (HVint v)
+  | HAddr => let* v := Dwarf_target_addr St in pret (HVint v)
+  | HU n => let* v := of_dec (uint_decode (little_endian St) (Z.to_nat n)) in pret (HVint v)
+  | HS n => let* v := of_dec (sint_decode_n (little_endian St) (Z.to_nat n)) in pret (HVint v)
+  | HUleb => let* v := Dwarf_uleb128 in pret (HVint v)
+  | HSleb => let* v := Dwarf_sleb128 in pret (HVint v)
+  | HCStr => let* b := CString in pret (HVbytes b)
+  | HNone => pret HVnone
+  | HIfVer n a b =>
+      if n <=? ctx_int "version" ctx then parse_hkind St ctx a else parse_hkind St ctx b
+  end.
+Fixpoint parse_layout (St : structs) (ctx : list (string * hval)) (l : list (string * hkind))
+  : parser (list (string * hval)) :=
+  match l with
+  | [] => pret ctx
+  | (n, k) :: r => let* v := parse_hkind St ctx k in parse_layout St ((n, v) :: ctx) r
+  end.
+
+Definition cie_header_of (ctx : list (string * hval)) : cie_header :=
+  mkcie_header (ctx_int "length" ctx) (ctx_int "CIE_id" ctx) (ctx_int "version" ctx)
+               (ctx_bytes "augmentation" ctx) (ctx_opt "address_size" ctx)
+               (ctx_opt "segment_size" ctx) (ctx_int "code_alignment_factor" ctx)
+               (ctx_int "data_alignment_factor" ctx) (ctx_int "return_address_register" ctx).
+Definition fde_header_of (ctx : list (string * hval)) : fde_header :=
+  mkfde_header (ctx_int "length" ctx) (ctx_int "CIE_pointer" ctx)
+               (ctx_int "initial_location" ctx) (ctx_int "address_range" ctx).
+
+Definition pmap {A B} (f : A -> B) (p : parser A) : parser B :=
+  fun bs => match p bs with Ok (a, r) => Ok (f a, r) | Err e => Err e end.
+
+Ltac step_parser :=
+  match goal with
+  | |- context [pbind ?p _ ?bs] =>
+      unfold pbind at 1; let v := fresh "v" in let r := fresh "r" in let e := fresh "e" in
+      destruct (p bs) as [[v r]|e]; [|reflexivity]
+  end.
+
+(* the hand model of the header structs IS the interpretation of the generated layouts, on all
+   byte strings (also the failing ones) *)
+Theorem model_FDE_header_is_gen : forall St bs,
+  Dwarf_FDE_header St bs = pmap fde_header_of (parse_layout St [] gen_Dwarf_FDE_header) bs.
+Proof.
+  intros St bs. unfold Dwarf_FDE_header, pmap, gen_Dwarf_FDE_header.
+  cbn [parse_layout parse_hkind].
+  unfold pbind.
+  destruct (Dwarf_initial_length St bs) as [[v1 r1]|e1]; [|reflexivity]. cbn [pret].
+  destruct (Dwarf_offset St r1) as [[v2 r2]|e2]; [|reflexivity]. cbn [pret].
+  destruct (Dwarf_target_addr St r2) as [[v3 r3]|e3]; [|reflexivity]. cbn [pret].
+  destruct (Dwarf_target_addr St r3) as [[v4 r4]|e4]; reflexivity.
+Qed.
+
+Lemma ltb_leb_succ v : (1 <? v) = (2 <=? v).
+Proof. destruct (Z.ltb_spec 1 v), (Z.leb_spec 2 v); auto; exfalso; apply (Z.lt_irrefl v); 
+  [apply Z.lt_le_trans with 2; [assumption|]|]; auto with zarith. Qed.
